@@ -7,7 +7,7 @@ from lib import core
 from lib.core import cz, czl
 from harness import common
 
-THEOREMS = ['C17_absolute', 'C17_relative', 'C17_beyond_63_weeks_rejected', 'C17_unset', 'C17_nonvacuous']
+THEOREMS = ['C17_absolute', 'C17_relative', 'C17_beyond_63_weeks_rejected', 'C17_unset', 'C17_from_timezone', 'C17_nonvacuous']
 IMPORTS = ['AV.Model.Base', 'AV.Model.TimeFmt']
 
 
@@ -180,6 +180,25 @@ def run(ctx):
         ctx.case(('parse', s), nontrivial=len(s) > 0)
     ctx.count('parse_printed_strings', len(strings))
     ctx.count('parse_malformed_strings', len(mal))
+    # ---- FixedOffset.from_timezone ('+hhmm' / '-hhmm'): every sign, hour and minute field that a UTC offset can have, plus malformed strings
+    from aiosmpplib.utils import FixedOffset
+    tz_cases = []
+    tz_strings = ['%s%02d%02d' % (sg, h, m) for sg in '+-' for h in range(0, 24) for m in (0, 15, 30, 45, 59)] + ['', '+9959', '-9959', '+0000', '-0000']
+    tz_strings += ['+01', '0100', '+1', '+01:00', '-0a00', 'Z', '+010', '-01000', ' 0100', '+-100']
+    for zs in tz_strings:
+        def call(zs=zs):
+            off = FixedOffset.from_timezone(zs).utcoffset(None)
+            assert off.microseconds == 0 and (off.days * 86400 + off.seconds) % 60 == 0
+            return [(off.days * 86400 + off.seconds) // 60]
+        r = ser_res(call)
+        tz_cases.append((core.cstr(zs), czl([0, r[1]] if r[0] == 0 else r)))
+        ctx.case(('tz', zs), nontrivial=len(zs) > 0)
+        if len(zs) == 5 and zs[0] in '+-' and zs[1:].isdigit():
+            want = (1 if zs[0] == '+' else -1) * (int(zs[1:3]) * 60 + int(zs[3:5]))
+            if r[0] != 0 or r[1] != want:
+                ctx.violation(f'FixedOffset.from_timezone({zs!r}).utcoffset() is {r[1] if r[0] == 0 else "an exception"} minutes, expected {want}',
+                              {'function': 'from_timezone', 'input': zs})
+    ctx.count('from_timezone_strings', len(tz_strings))
     d0 = datetime(2024, 2, 29, 23, 59, 58, 734567, tzinfo=timezone(timedelta(minutes=-195)))
     ctx.sample({'datetime': repr(d0), 'wire': SubmitSm.datetime_to_smpp_time(d0), 'back': repr(SubmitSm.smpp_time_to_datetime(SubmitSm.datetime_to_smpp_time(d0)))})
     ctx.sample({'timedelta': 'days=364, seconds=86399', 'wire': SubmitSm.datetime_to_smpp_time(timedelta(days=364, seconds=86399))})
@@ -187,6 +206,7 @@ def run(ctx):
         for name, fn, cases in (
             ('to', 'fun t : timeval => ser_res (time_to_smpp t)', to_cases),
             ('from', 'fun s : list Z => ser_res_time (smpp_to_time s)', from_cases),
+            ('tz', 'fun s : list Z => ser_res_z (from_timezone s)', tz_cases),
         ):
             bad, errs = core.run_cases('C17', name, IMPORTS, fn, cases, shard=800)
             for fnm, out in errs:
@@ -213,6 +233,13 @@ def replay(ctx, path):
         msg = oracle_abs(SubmitSm, datetime(v[1], v[2], v[3], v[4], v[5], v[6], v[7], tzinfo=tz))
     elif r.get('function') == 'relative':
         msg = oracle_rel(SubmitSm, timedelta(days=v[1], seconds=v[2], microseconds=v[3]))
+    elif r.get('function') == 'from_timezone':
+        from aiosmpplib.utils import FixedOffset
+        zs = r['input']
+        off = FixedOffset.from_timezone(zs).utcoffset(None)
+        want = (1 if zs[0] == '+' else -1) * (int(zs[1:3]) * 60 + int(zs[3:5]))
+        if off != timedelta(minutes=want):
+            msg = f'FixedOffset.from_timezone({zs!r}).utcoffset() = {off!r}, expected {timedelta(minutes=want)!r}'
     print('replay:', msg or 'property holds on this input')
     if msg:
         print(f'VIOLATION property=C17 replay={path}')
